@@ -21,6 +21,11 @@ enum Op {
     MmAdd(u64, u64, u64),
     MmDel(u64, u64, u64),
     Savepoint,
+    /// create and drop this many ephemeral savepoints at the start of the transaction (they
+    /// share the id counter with the persistent ones)
+    EphemeralSavepoints(u64),
+    /// delete the n-th (modulo their number) persistent savepoint that existed before the transaction
+    DeleteSavepoint(u64),
 }
 
 #[derive(Clone, PartialEq, Eq, Default, Debug)]
@@ -144,9 +149,28 @@ macro_rules! version {
                 let mut points = vec![];
                 for ops in txns {
                     let txn = db.begin_write().map_err(|e| format!("{e:?}"))?;
+                    for op in ops {
+                        if let Op::EphemeralSavepoints(n) = op {
+                            for _ in 0..*n {
+                                drop(txn.ephemeral_savepoint().map_err(|e| format!("{e:?}"))?);
+                            }
+                        }
+                    }
+                    let existing: Vec<u64> = cur.savepoints.iter().copied().collect();
                     if ops.iter().any(|o| matches!(o, Op::Savepoint)) {
                         let id = txn.persistent_savepoint().map_err(|e| format!("{e:?}"))?;
                         cur.savepoints.insert(id);
+                    }
+                    for op in ops {
+                        if let Op::DeleteSavepoint(n) = op {
+                            if !existing.is_empty() {
+                                let id = existing[(*n % existing.len() as u64) as usize];
+                                let was = txn.delete_persistent_savepoint(id).map_err(|e| format!("{e:?}"))?;
+                                if was != cur.savepoints.remove(&id) {
+                                    return Err(format!("delete_persistent_savepoint({id}) returned {was}"));
+                                }
+                            }
+                        }
                     }
                     {
                         let mut a = txn.open_table(A).map_err(|e| format!("{e:?}"))?;
@@ -189,7 +213,7 @@ macro_rules! version {
                                         }
                                     }
                                 }
-                                Op::Savepoint => {}
+                                Op::Savepoint | Op::EphemeralSavepoints(_) | Op::DeleteSavepoint(_) => {}
                             }
                         }
                     }
@@ -301,7 +325,39 @@ fn gen_txns(rng: &mut Rng, thorough: bool) -> Vec<Vec<Op>> {
             }
             ops
         })
+        .collect::<Vec<_>>()
+        .into_iter()
+        .enumerate()
+        .map(|(i, mut ops)| {
+            // savepoint traffic, drawn after the data operations (the data part of a program is
+            // the same as it was before these were added)
+            if rng.chance(1, 4) {
+                ops.push(Op::EphemeralSavepoints(*rng.pick(&[1u64, 4, 40, 300])));
+            }
+            if i > 0 && rng.chance(1, 6) {
+                ops.push(Op::DeleteSavepoint(rng.below(4)));
+            }
+            ops
+        })
         .collect()
+}
+
+/// a long savepoint history: persistent savepoints created early and late, with hundreds of
+/// ephemeral ones in between (ids of more than one byte), some deleted again
+fn savepoint_program(variant: u64) -> Vec<Vec<Op>> {
+    let data = |base: u64| -> Vec<Op> { (0..12).map(|k| Op::PutA(base + k, 300)).chain((0..6).map(|k| Op::PutS(format!("sp/{base}/{k:03}"), 120))).collect() };
+    let with = |mut ops: Vec<Op>, extra: Vec<Op>| -> Vec<Op> {
+        ops.extend(extra);
+        ops
+    };
+    // persistent savepoints spread over the id range: a few dozen, a few hundred, beyond 512
+    let gaps = [3 + variant, 37, 150 - variant * 3, 70 + variant * 5, 45, 250 + variant * 7];
+    let mut txns = vec![data(0)];
+    for (i, g) in gaps.iter().enumerate() {
+        txns.push(with(data(100 * (i as u64 + 1)), vec![Op::EphemeralSavepoints(*g), Op::Savepoint]));
+    }
+    txns.push(with(data(800), vec![Op::DeleteSavepoint(variant), Op::MmAdd(1, 0, 30)]));
+    txns
 }
 
 /// a program in which the file grows by several MiB, the data is deleted again and later commits
@@ -462,6 +518,10 @@ pub fn run(args: &Args) {
             break;
         }
     }
+    // long savepoint histories, in both directions, clean-closed and crashed
+    for v in 0..4u64 {
+        plan.push((savepoint_program(args.seed.wrapping_add(v) % 5), v % 2 == 0, v >= 2));
+    }
     for case in 0..n {
         let mut r = rng.fork();
         let txns = gen_txns(&mut r, args.thorough);
@@ -610,7 +670,7 @@ pub fn run(args: &Args) {
     }
     // crash-recovered files across versions: shrinking programs (both directions) and, in the
     // thorough tier, random programs as well
-    let mut progs: Vec<(Vec<Vec<Op>>, bool)> = vec![(shrink_program(args.seed % 3), true), (shrink_program((args.seed + 1) % 3), false)];
+    let mut progs: Vec<(Vec<Vec<Op>>, bool)> = vec![(shrink_program(args.seed % 3), true), (shrink_program((args.seed + 1) % 3), false), (savepoint_program(args.seed % 5), args.seed % 2 == 0)];
     for i in 0..(if args.thorough { 12 } else { 2 }) {
         let mut r = rng.fork();
         progs.push((gen_txns(&mut r, args.thorough), i % 2 == 0));
